@@ -6,7 +6,31 @@ from ..refmodel import tables as T
 PROP = "C13"
 SYMS = ["K", "e", "s", " ", "\t", "\n", " ", "\u001c", "B", "1", "*", "-", "é", "\x00", "ı", "ß", ">"]
 HOSTS = ["KEG", "sTyAa", "GKEKEGPW"]
-NONSTR = [None, 0, 7, 3.5, b"KEKE", ["K", "E"], ("K", "E"), {"K"}, True, False, bytearray(b"KE"), {"K": 1}, object]
+import collections as _c
+import decimal as _d
+import pathlib as _p
+
+
+class _Peptidelike:
+    """Not a string, but str() of it reads as a valid sequence."""
+    def __init__(self, t):
+        self.t = t
+
+    def __str__(self):
+        return self.t
+
+    def __repr__(self):
+        return "_Peptidelike(%r)" % self.t
+
+    def __len__(self):
+        return len(self.t)
+
+
+NONSTR = [None, 0, 7, 3.5, b"KEKE", ["K", "E"], ("K", "E"), {"K"}, True, False, bytearray(b"KE"), {"K": 1}, object,
+          # non-strings whose text form happens to be a word over the 20 residues
+          float("nan"), float("inf"), _d.Decimal("Infinity"), _d.Decimal("NaN"), _p.PurePosixPath("mkvla"), ValueError("ACDEF"),
+          KeyError("KEKE"), _c.UserString("ACDEF"), _Peptidelike("KEKE"), _Peptidelike("mkvla"), memoryview(b"KEKE"), 1e400, -float("inf"),
+          ["KEKE"], ("ACD",), type("NAN", (), {}), Ellipsis, NotImplemented, range(3), frozenset("K"), complex("nan")]
 
 _vec = {}
 
@@ -53,6 +77,20 @@ def check_case(case):
     except Exception as e:  # noqa
         if valid:
             v("valid-string-rejected", "SequenceParameters(%r) raised %r but normalises to the valid word %s" % (s, e, n), normalised=n)
+        else:
+            # a rejected string stays rejected when it is submitted again (second and third attempt in the same process)
+            for attempt in (2, 3):
+                try:
+                    o = SP(s)
+                except Exception:  # noqa
+                    continue
+                try:
+                    shown = o.get_sequence()
+                except Exception:  # noqa
+                    shown = "?"
+                v("invalid-string-accepted-on-resubmission", "SequenceParameters(%s) was rejected at first but attempt %d produced an object "
+                  "(sequence %r)" % (repr(s)[:80], attempt, shown), normalised=n[:80])
+                return out, "accepted-invalid", attempt
         return out, "rejected", 1
     if not valid and case.get("with_file"):
         pass
@@ -222,6 +260,18 @@ def shard(s):
                 yield {"kind": "string", "s": "\n".join(w[i:i + 60].lower() for i in range(0, n, 60))}
                 yield {"kind": "string", "s": w[:n // 2] + "X" + w[n // 2:]}
                 yield {"kind": "string", "s": w + " 1"}
+                # long strings whose only foreign characters are ones some internal table knows (+, -, 0, *), long blank strings
+                for c in "+-0*":
+                    for pos in (0, n // 3, n):
+                        yield {"kind": "string", "s": w[:pos] + c + w[pos:]}
+                yield {"kind": "string", "s": ("+-0" * n)[:n]}
+                yield {"kind": "string", "s": " " * n}
+                yield {"kind": "string", "s": (" \t\n" * n)[:n]}
+            for n in (49, 50, 51, 64):
+                w = (base * 4)[:n]
+                yield {"kind": "string", "s": w[:n - 1] + "0"}
+                yield {"kind": "string", "s": "-" + w[1:]}
+                yield {"kind": "string", "s": " " * n}
         gen = g2()
     else:
         gen = ({"kind": "nonstring", "index": i} for i in range(len(NONSTR)))
@@ -269,7 +319,7 @@ def run(tier, seed, t0):
         PROP, tier, seed, acc, t0,
         rule="every string of length 0..%d over a 17-symbol alphabet (upper/lower residues, space, tab, newline, U+00A0, U+001C, "
              "B, 1, *, -, e-acute, NUL, dotless i, sharp s, >), every code point U+0000..U+%04X inserted at every position of 3 host "
-             "sequences, and %d non-string arguments; oracle from the statement: with n = upper-cased input minus whitespace, "
+             "sequences, long strings (49..300 characters) in valid, mixed and invalid forms (foreign +, -, 0, * at three positions, all blank), and %d non-string arguments (incl. objects whose str() is a valid word: nan, inf, Decimal, paths, exceptions, UserString); every rejected string is submitted three times and must stay rejected; oracle from the statement: with n = upper-cased input minus whitespace, "
              "construction succeeds iff n is a non-empty word over the 20 letters, then sequence/length/len equal n and a 32-entry "
              "read-only API vector equals that of SequenceParameters(n) (also when the same mixed-case residues are handed over as a backend "
              "Sequence / SequencePermutants); otherwise an exception; in a freshly imported package six sequence files are parsed before "
